@@ -52,6 +52,55 @@ CLAIMED = {
         technique="Lean 4 proof (list induction on flatMap/zip) + independent label-decoder spec "
                   "evaluated on real output + model correspondence",
         ref="6 C04"),
+    "C05": dict(
+        text="Lean 4 theorems about the Khatri-Rao model for every number of groups, effect width and "
+             "row: slot g' of an observation of group g holds the effect row when g' = g and zero "
+             "otherwise, at positions g'*p + k (C05_block_row), width G*p, cells of g1:g2 in "
+             "lexicographic order of the level lists (C05_cell_order). Spec.C05 (expected groups from "
+             "sorted / declared levels, block structure against the observed effect columns) is "
+             "evaluated by the driver on every group-specific term of real designs; the evaluation "
+             "model is compared entry by entry. The coding-rule clause (reduced vs full effects) is "
+             "judged against the redundancy analysis of C03 (pending merge of that model) and by exact "
+             "rank on crossed data.",
+        note="Trusted: Lean kernel; scipy.linalg.khatri_rao is modelled by the row product; the effect "
+             "columns are read from term.expr.data; the coding-rule clause is only partially covered "
+             "(known defects D11, D12 of DESIGN.md section 3).",
+        technique="Lean 4 proof (index arithmetic on flatMap) + block-structure spec on real output + "
+                  "model correspondence",
+        ref="6 C05"),
+    "C06": dict(
+        text="Spec.C06.holds (new-data matrix = selected rows of the training matrix) is evaluated by "
+             "the Lean driver on real evaluate_new_data results for 6 row selections per design (single "
+             "rows, subsets that miss levels, permutations, repetitions, shifted ranges), incl. nested / "
+             "interacting scale, bs, poly, center; the exact evaluation model (training path and "
+             "prediction path modelled separately, transform state as a tree mirroring the call tree) is "
+             "compared on the modelled atoms; failures in the Lean-delimited classes D13 (levels= / "
+             "ordered data) and D14 (binary not stateful) are known findings. The model-level theorem "
+             "C06_rows (prediction on any row list of the training frame returns those rows of the "
+             "training matrix) is being proved; until it is merged the level is correspondence + spec.",
+        note="Trusted: Lean kernel; numpy/scipy floating point for scale/bs/poly (frozen parameters are "
+             "observed through the row identity itself, tolerance 1e-9).",
+        technique="Lean 4 executable two-path model + row-identity spec on real output + differential "
+                  "correspondence (theorem in progress)",
+        category="translation_validation",
+        ref="6 C06"),
+    "C10": dict(
+        text="Lean 4 theorems about the model of eval_new_data_categoric / GroupSpecificTerm.eval_new_data "
+             "/ Config: error mode raises iff a value is unseen (C10_error_iff); in warning/silent mode the "
+             "row of an unseen value is the zero row and every other row is its contrast row, warning iff "
+             "mode = warning (C10_zero_rows); a zero row zeroes every interaction column "
+             "(C10_interaction_zero_*); an observation of an unseen group gets the trailing (G+1)-th block "
+             "carrying its effect values, all existing slots zero (C10_new_group_block); Config accepts "
+             "exactly the documented key/values, defaults to error, last setting wins; the field table is "
+             "regenerated from config.py and tied by `decide`. Spec.C10 (zero rule, new-group rule, "
+             "factors_with_new_levels, slices, raise/warn policy) is evaluated by the driver on pairs of "
+             "real evaluations (new frame vs the frame with unseen values replaced); the model is compared "
+             "on the same frames under the three policies.",
+        note="Trusted: Lean kernel; translator; pandas Categorical codes for unseen values; which "
+             "variables a column involves is taken from var_names (C09).",
+        technique="Lean 4 proof + relational spec evaluated on real output + model correspondence + "
+                  "config table tie (decide)",
+        ref="6 C10"),
     "C13": dict(
         text="Lean 4 model of Treatment / Sum / CategoricalBox / C,T,S with 31 theorems for every number "
              "of levels and every reference / omitted level: shapes, reference row zero, zero-sum columns, "
